@@ -151,7 +151,7 @@ func loopOverField(p *Program, fn *ssa.Function, field string) *rangeLoop {
 func c02R2(c *Ctx) {
 	p := c.P
 	c.note("R2 driver-order (dominance on EvalProgram's CFG): loop(beginRules).done dominates loop(files).header; loop(files).done dominates loop(endRules).header; the Decode call is inside loop(files); setGlobal(\"$file\", cell of the ranged file's Name) follows each successful Decode and dominates the root loop; inside the root loop: loop(beginFileRules).done dominates the evalPatternRules(ev.patternRules) call, whose success edge dominates loop(endFileRules).header; ev.root = the ranged root cell before the pattern rules; each driver loop evaluates rule.Body of its own list's elements with ruleRoot stored first (BEGIN/END: fresh null cell; BEGINFILE: the root cell; ENDFILE: a fresh cell holding the root's value as it was before the BEGINFILE rules).")
-	ep := p.LangFunc("EvalProgram")
+	ep := p.DriverFunc()
 	if ep == nil {
 		c.undecided("R2", "EvalProgram", "", "anchor not found")
 		return
@@ -364,7 +364,7 @@ func c02R3(c *Ctx) {
 				}
 				name := shortName(fn)
 				switch {
-				case sName == "errExit" && name == "lang.EvalProgram":
+				case sName == "errExit" && p.isDriver(fn):
 					r, isRet := eqEdge.Instrs[len(eqEdge.Instrs)-1].(*ssa.Return)
 					calls := 0
 					for _, x := range eqEdge.Instrs {
@@ -372,13 +372,13 @@ func c02R3(c *Ctx) {
 							calls++
 						}
 					}
-					okR := isRet && calls == 0 && ek.KindsAt(effectiveResults(r)[1], factSet{}) == KNil
+					okR := isRet && calls == 0 && ek.KindsAt(effectiveResults(r)[len(effectiveResults(r))-1], factSet{}) == KNil
 					c.check(okR, "R3", key, p.InstrPos(ifi), "exit: return (evaluator, nil) immediately", "on `err == errExit` the driver does not return success immediately: further rules (END included) can still run, or the exit is reported as a failure")
 				case sName == "errNext" && name == "(*lang.Evaluator).evalRules":
 					r, isRet := eqEdge.Instrs[len(eqEdge.Instrs)-1].(*ssa.Return)
 					okR := isRet && len(eqEdge.Instrs) == 1 && ek.KindsAt(effectiveResults(r)[0], factSet{}) == KNil
 					c.check(okR, "R3", key, p.InstrPos(ifi), "next: evalRules returns nil, abandoning the remaining rules of this element", "on `err == errNext` evalRules does not return nil at once: the remaining rules of the element still run (or next is reported as an error)")
-				case sName == "errNext" && name == "lang.EvalProgram":
+				case sName == "errNext" && p.isDriver(fn):
 					// the equal edge continues with the next rule of the same driver loop: it reaches a
 					// loop header without any call
 					okC := true
@@ -426,7 +426,7 @@ func c02R3(c *Ctx) {
 							continue
 						}
 						nSites++
-						if shortName(cs.Parent()) != "lang.EvalProgram" || !returnedAtOnce(cs) {
+						if !p.isDriver(cs.Parent()) || !returnedAtOnce(cs) {
 							okSites = false
 						}
 					}
